@@ -10,7 +10,7 @@ statements for every `Codec`.
 import ConfModel.Lemmas.Convert
 import ConfModel.Lemmas.Base64
 import ConfModel.Generated.C18Facts
-import ConfModel.Model.ProtoWire
+import ConfModel.Lemmas.ProtoWire
 namespace ConfModel.Props.C18
 open ConfModel.Convert ConfModel.ConvertSpec
 
@@ -450,9 +450,9 @@ the descriptor for every case). -/
 section Wire
 open ConfModel.ProtoWire
 
-/-- The strict codec accepts exactly when the bytes split into well-formed fields every one of
-which the message type knows (number and wire type). -/
-theorem strict_accepts_iff (k : Known) (b : ProtoWire.Bytes) :
+/-- The top level alone (the code before the repair of F30 looked no further): accepted exactly
+when the bytes split into well-formed fields every one of which the message type knows. -/
+theorem strict_top_accepts_iff (k : Known) (b : ProtoWire.Bytes) :
     strictTop k b = .ok ↔ ∃ fs, fields b = some fs ∧ ∀ f ∈ fs, isKnown k f = true := by
   unfold strictTop
   cases hf : fields b with
@@ -476,7 +476,7 @@ theorem strict_accepts_iff (k : Known) (b : ProtoWire.Bytes) :
       rw [hall g hg.1] at hg; cases hg.2
 
 /-- …and when it refuses a well-formed message it names a field the type does not know. -/
-theorem strict_reports_unknown (k : Known) (b : ProtoWire.Bytes) (num wt : Nat) (h : strictTop k b = .unknown num wt) :
+theorem strict_top_reports_unknown (k : Known) (b : ProtoWire.Bytes) (num wt : Nat) (h : strictTop k b = .unknown num wt) :
     ∃ fs f, fields b = some fs ∧ f ∈ fs ∧ f.num = num ∧ f.wt = wt ∧ isKnown k f = false := by
   unfold strictTop at h
   cases hf : fields b with
@@ -504,6 +504,86 @@ example :
     strictTop k [0xfc, 0x7c] = .malformed ∧
     strictTop k [0x0e] = .malformed ∧
     strictTop k [0x00, 0x01] = .malformed := by decide
+
+/-! ### nested messages (the repaired codec, F30)
+
+`Tables`: one field table per message type reachable from the root, regenerated from the
+descriptor for every case; message-typed fields (singular, repeated, map entries and their
+values) name the table of their type; `google.protobuf.Any` has a string and a bytes field - its
+`value` is opaque.  Theorems for EVERY list of tables. -/
+
+/-- **The strict codec accepts exactly when the wire is well formed and every field number at
+every depth of message-typed fields is known** (with the wire type the field accepts). -/
+theorem strict_accepts_iff (T : Tables) (b : ProtoWire.Bytes) :
+    strictDeep T b = .ok ↔ ConfModel.ProtoWireSpec.allKnown (b.length + 2) T 0 b = true := by
+  rw [← unknownsIn_nil_iff]
+  unfold strictDeep
+  cases h : unknownsIn (b.length + 2) T 0 b with
+  | none => simp
+  | some us =>
+    cases us with
+    | nil => simp
+    | cons x t => obtain ⟨n, w⟩ := x; simp
+
+/-- **The field it names is an unknown field of the message itself or of one nested message**:
+a field of the message that its table does not know, or a field the same walk finds in the
+message held by one of its message-typed fields. -/
+theorem strict_reports_unknown (T : Tables) (b : ProtoWire.Bytes) (num wt : Nat)
+    (h : strictDeep T b = .unknown num wt) :
+    ∃ fuel t fs, T[0]? = some t ∧ fields b = some fs ∧
+      ((t.lenient = false ∧ ∃ f ∈ fs, f.num = num ∧ f.wt = wt ∧ knownIn t f = false) ∨
+       (∃ f ∈ fs, ∃ sub payload us, descend t f = some (sub, payload) ∧
+          unknownsIn fuel T sub payload = some us ∧ (num, wt) ∈ us)) := by
+  unfold strictDeep at h
+  cases hu : unknownsIn (b.length + 2) T 0 b with
+  | none => simp [hu] at h
+  | some us =>
+    cases us with
+    | nil => simp [hu] at h
+    | cons x rest =>
+      obtain ⟨n, w⟩ := x
+      simp only [hu, Outcome.unknown.injEq] at h
+      obtain ⟨rfl, rfl⟩ := h
+      have hu' := hu
+      unfold unknownsIn at hu'
+      cases ht : T[0]? with
+      | none => simp [ht] at hu'
+      | some t =>
+        cases hf : fields b with
+        | none => simp [ht, hf] at hu'
+        | some fs =>
+          simp only [ht, hf] at hu'
+          cases hn : nestedUnknowns (unknownsIn (b.length + 1) T) t fs with
+          | none => simp [hn] at hu'
+          | some ns =>
+            simp only [hn, Option.some.injEq] at hu'
+            refine ⟨b.length + 1, t, fs, rfl, rfl, ?_⟩
+            have hmem : (n, w) ∈ (if t.lenient = true then [] else
+                (fs.filter (fun f => !knownIn t f)).map (fun f => (f.num, f.wt))) ++ ns := by
+              rw [hu']; simp
+            rcases List.mem_append.mp hmem with hown | hnest
+            · left
+              cases hl : t.lenient with
+              | true => simp [hl] at hown
+              | false =>
+                simp only [hl, Bool.false_eq_true, if_false, List.mem_map, List.mem_filter, Bool.not_eq_true',
+                  Prod.mk.injEq] at hown
+                obtain ⟨f, ⟨hfm, hk⟩, hn1, hn2⟩ := hown
+                exact ⟨rfl, f, hfm, hn1, hn2, hk⟩
+            · right
+              exact nested_mem _ t fs ns hn (n, w) hnest
+
+/-- F30, the witness: `UnaryRequest { response_definition { <unknown varint field 1999> } }`
+passes the top-level walk and is refused by the walk into nested messages. -/
+theorem f30_witness :
+    let T : Tables := [⟨false, [⟨1, [2], true, 1⟩, ⟨2, [2], false, 0⟩]⟩, ⟨false, [⟨1, [2], false, 0⟩, ⟨2, [2], false, 0⟩]⟩]
+    let b : ProtoWire.Bytes := [0x12, 0x00, 0x0a, 0x04, 0xf8, 0x7c, 0xac, 0x02]
+    strictTop [(1, [2]), (2, [2])] b = .ok ∧ strictDeep T b = .unknown 1999 0 ∧
+    strictDeep T [0x12, 0x00, 0x0a, 0x02, 0x0a, 0x00] = .ok ∧
+    -- a malformed nested message; an unknown field inside a map-entry-like lenient table is skipped
+    strictDeep T [0x0a, 0x02, 0x0a, 0x05] = .malformed ∧
+    strictDeep [⟨false, [⟨1, [2], true, 1⟩]⟩, ⟨true, [⟨1, [2], false, 0⟩]⟩] [0x0a, 0x02, 0x18, 0x01] = .ok := by
+  decide
 
 end Wire
 
